@@ -154,7 +154,7 @@ def run_scenario(sc):
 
     def on_connectfailure(component, error):
         k = len(world.attempts) - 1
-        ev = dict(ev="fail", k=k, kind=world.outcome(k), fatal=False, err=type(error).__name__)
+        ev = dict(ev="fail", k=k, kind=world.outcome(k), fatal=False, err=type(error).__name__, argOk=True)
         if k in world.joined and not (ev["kind"] == "main_raises" and isinstance(error, MainBoom)):
             ev["kind"] = "joined_lost"        # any failure of a joined session other than main raising is a lost connection
         last_fail.append(ev)
@@ -184,6 +184,9 @@ def run_scenario(sc):
     fatal_seq = list(sc.get("fatal_seq") or [])
 
     def is_fatal(e):
+        # the classifier is documented to receive the exception instance
+        if last_fail and not isinstance(e, BaseException):
+            last_fail[-1]["argOk"] = False
         if fatal == "seq":
             v = fatal_seq.pop(0) if fatal_seq else False
             if last_fail:
